@@ -65,7 +65,7 @@ REQUIRED_HITS = [
     'K4.mut.prepend-1', 'K4.mut.substitute', 'K4.mut.delete',
     'K5.addr_checked', 'K5.invalid_checked', 'K5.foreign_prefix_checked',
     'K6.account_checked', 'K6.second_db_checked', 'K6.gap.1', 'K6.gap.3', 'K6.gap.20', 'K6.after_use_checked',
-    'K6.private_key_checked', 'K6.seed_stretch_checked', 'K6.fixture_checked',
+    'K6.private_key_checked', 'K6.seed_stretch_checked', 'K6.respelled_mnemonic_checked', 'K6.fixture_checked',
     'K7.roundtrip_checked', 'K7.boundary_checked',
 ]
 
@@ -1066,6 +1066,28 @@ def execute(rec, case):
             if got != want:
                 rec.violation('C06/K6/seed-stretch', f'mnemonic_to_seed({mn!r}, {pw!r}) = {got.hex()} != PBKDF2-HMAC-SHA512 '
                               f'{want.hex()}', {'mnemonic': mn, 'passphrase': pw, 'lbry': got.hex(), 'reference': want.hex()})
+                continue
+            # the same mnemonic (the same words in the same order) typed or pasted differently: doubled blanks, tabs, line wraps,
+            # surrounding blanks, capitals.  It must regenerate the same seed, hence the same addresses (seeded break C06-E)
+            words = mn.split(' ')
+            sep = lambda: r.choice([' ', '  ', '\t', '\n', ' \n', '\r\n', '   '])  # noqa: E731
+            spelled = {
+                'double-blank': '  '.join(words), 'tabs': '\t'.join(words), 'line-wrapped': '\n'.join(words),
+                'trailing-newline': mn + '\n', 'leading-blank': ' ' + mn, 'surrounded': '  ' + mn + ' \n',
+                'mixed-separators': ''.join(w + (sep() if i < len(words) - 1 else '') for i, w in enumerate(words)),
+                'capitals': mn.upper(), 'title-case': mn.title() if mn.title().lower() == mn else mn.upper(),
+            }
+            for how in r.sample(sorted(spelled), 3):
+                try:
+                    got2 = bytes(M.mnemonic_to_seed(spelled[how], pw))
+                except Exception as e:  # noqa
+                    rec.violation(f'C06/K6/raises/{type(e).__name__}@mnemonic_to_seed/respelled', f'{type(e).__name__}: {e} for {spelled[how]!r}',
+                                  {'mnemonic': spelled[how], 'passphrase': pw})
+                    continue
+                rec.hit('K6.respelled_mnemonic_checked')
+                if got2 != want:
+                    rec.violation(f'C06/K6/same-mnemonic-other-seed/{how}', f'mnemonic_to_seed({spelled[how]!r}) differs from the seed of the same words '
+                                  f'separated by single blanks', {'mnemonic': mn, 'spelled': spelled[how], 'how': how, 'passphrase': pw})
     elif fam in ('mnem_win', 'mnem_range', 'mnem_rand', 'mnem_fixed'):
         m = lb.mnemonic.Mnemonic('en')
         if len(m.words) != 2048 or len(set(m.words)) != 2048:
